@@ -2,6 +2,7 @@ package rules
 
 import (
 	"fmt"
+	"go/types"
 	"strings"
 
 	"golang.org/x/tools/go/ssa"
@@ -45,7 +46,18 @@ func c05_12(c *core.Ctx, p *core.Prog) {
 		c.Undecided("anchors", "?", "", fmt.Sprintf("batch interface not resolved: %v", a.errs))
 		return
 	}
-	for _, fn := range forwarders(a) {
+	// A forwarder whose one downstream call resolves statically to a package function that is
+	// not an interface implementation (the worker behind the batcher/batch interfaces) has
+	// merely delegated the forwarding: the helper is a forwarder too and is held to the same
+	// clauses (a helper that swallows the error on one path tells the caller "success").
+	work := forwarders(a)
+	seen := map[*ssa.Function]bool{}
+	for _, f := range work {
+		seen[f] = true
+	}
+	for len(work) > 0 {
+		fn := work[0]
+		work = work[1:]
 		key := "fn=" + core.FuncName(fn)
 		// the downstream call: a call taking a context and returning exactly an error
 		var down []*ssa.Call
@@ -64,14 +76,18 @@ func c05_12(c *core.Ctx, p *core.Prog) {
 			continue
 		}
 		d := down[0]
+		if sc := d.Call.StaticCallee(); sc != nil && sc.Blocks != nil && core.FnPkgPath(sc) == core.CBPPath && !seen[sc] && !implementsPkgIface(a, sc) && len(seen) < 32 {
+			seen[sc] = true
+			work = append(work, sc)
+		}
 		var msgs []string
 		// every return hands back the downstream error itself
 		for _, r := range core.Returns(fn) {
-			if c.Property != "C06" {
+			if c.Property != "C06" && c.Property != "C10" {
 				break
 			}
 			if len(r.Results) != 1 || core.Strip(r.Results[0]) != ssa.Value(d) {
-				msgs = append(msgs, fmt.Sprintf("the return at %s does not return the downstream call's error unchanged (an export failure is reported to the waiting callers as something else, e.g. success)", p.Pos(r.Pos())))
+				msgs = append(msgs, fmt.Sprintf("the return at %s does not return the downstream call's error unchanged (an export failure or a refusal is reported to the caller as something else, e.g. success)", p.Pos(r.Pos())))
 			}
 		}
 		// the downstream call is on every path
@@ -83,7 +99,6 @@ func c05_12(c *core.Ctx, p *core.Prog) {
 		if d.Call.IsInvoke() {
 			args = append([]ssa.Value{d.Call.Value}, args...)
 		}
-		params := fn.Params // recv, ctx, req
 		fromParam := func(v ssa.Value, pr *ssa.Parameter) bool {
 			return core.DerivesFrom(v, func(x ssa.Value) bool { return x == ssa.Value(pr) })
 		}
@@ -96,13 +111,26 @@ func c05_12(c *core.Ctx, p *core.Prog) {
 				reqArg = x
 			}
 		}
-		if len(params) == 3 {
-			if c.Property == "C18" && (ctxArg == nil || !fromParam(ctxArg, params[1])) {
+		// the forwarder's own context and request parameters, by type (a delegated helper may be a package function)
+		var ctxParam, reqParam *ssa.Parameter
+		for i, pr := range fn.Params {
+			if i == 0 && fn.Signature.Recv() != nil {
+				continue
+			}
+			switch {
+			case isCtx(pr.Type()) && ctxParam == nil:
+				ctxParam = pr
+			case (isPdataType(pr.Type()) || isAny(pr.Type())) && reqParam == nil:
+				reqParam = pr
+			}
+		}
+		if ctxParam != nil && reqParam != nil {
+			if c.Property == "C18" && (ctxArg == nil || !fromParam(ctxArg, ctxParam)) {
 				msgs = append(msgs, "the downstream call does not receive this call's context")
 			}
 			if c.Property != "C05" {
 				// the request clause belongs to C05
-			} else if reqArg == nil || !fromParam(reqArg, params[2]) {
+			} else if reqArg == nil || !fromParam(reqArg, reqParam) {
 				msgs = append(msgs, "the downstream call does not receive this call's request")
 			} else {
 				// and from nothing else that carries telemetry: no pdata constructor in its slice
@@ -122,6 +150,32 @@ func c05_12(c *core.Ctx, p *core.Prog) {
 	}
 }
 
+// implementsPkgIface: fn is a method that implements a method of an interface declared in the
+// batch processor's package (the batcher behind Consume*, the batch behind export): the worker
+// a forwarder hands over to, not a forwarder itself.
+func implementsPkgIface(a *cbpAnchors, fn *ssa.Function) bool {
+	recv := fn.Signature.Recv()
+	if recv == nil || a.pkg == nil {
+		return false
+	}
+	for _, m := range a.pkg.Members {
+		t, ok := m.(*ssa.Type)
+		if !ok {
+			continue
+		}
+		it, ok := t.Type().Underlying().(*types.Interface)
+		if !ok {
+			continue
+		}
+		for i := 0; i < it.NumMethods(); i++ {
+			if it.Method(i).Name() == fn.Name() && types.Implements(recv.Type(), it) {
+				return true
+			}
+		}
+	}
+	return false
+}
+
 func joinMsgs(m []string) string {
 	s := ""
 	for i, x := range m {
@@ -136,5 +190,6 @@ func joinMsgs(m []string) string {
 func init() {
 	register("C05", &core.Rule{ID: "C05.12", Title: "forwarders (export, Consume*) pass their own request on every path", Mod: core.ModCBP, Floor: 6, Run: c05_12})
 	register("C06", &core.Rule{ID: "C06.8", Title: "forwarders (export, Consume*) return the downstream error unchanged", Mod: core.ModCBP, Floor: 6, Run: c05_12})
+	register("C10", &core.Rule{ID: "C10.8", Title: "forwarders (Consume*, export and the helpers they delegate to) return the downstream error unchanged: a refusal reaches the caller", Mod: core.ModCBP, Floor: 6, Run: c05_12})
 	register("C18", &core.Rule{ID: "C18.8", Title: "forwarders (export, Consume*) pass on the context they were given (the one C18.2 selected)", Mod: core.ModCBP, Floor: 6, Run: c05_12})
 }
